@@ -9,8 +9,8 @@ PROPS["C01"] = dict(
     rule="A case = (processor configuration, thread programs, exporter behaviour, schedule).",
     assumptions=SCHED_ASSUMPTIONS + [SC_NOTE],
     runs=[
-        run("bsp", "c01_sched", "bsp_sched", "rc", dict(procs=6, cases=12000), dict(procs=10, cases=250000), asan_extra=SCHED_ASAN),
-        run("blp", "c01_sched", "blp_sched", "rc", dict(procs=6, cases=12000), dict(procs=6, cases=250000), asan_extra=SCHED_ASAN),
+        run("bsp", "c01_sched", "bsp_sched", "rc", dict(procs=6, cases=30000), dict(procs=10, cases=250000), asan_extra=SCHED_ASAN),
+        run("blp", "c01_sched", "blp_sched", "rc", dict(procs=6, cases=30000), dict(procs=6, cases=250000), asan_extra=SCHED_ASAN),
         run("bsp-threads-tsan", "c01_thr_tsan", "bsp_threads", "rc", dict(procs=1, cases=150), dict(procs=3, cases=3000), deterministic=False, replay_bin="c01_thr_tsan"),
         run("blp-threads-tsan", "c01_thr_tsan", "blp_threads", "rc", dict(procs=1, cases=150), dict(procs=3, cases=3000), deterministic=False, replay_bin="c01_thr_tsan"),
         run("bsp-threads", "c01_thr", "bsp_threads", "rc", dict(procs=1, cases=150), dict(procs=3, cases=3000), deterministic=False),
